@@ -180,8 +180,7 @@ Definition check_pow (x y : Z) (r : jsnum) : bool :=
 
 Definition check_parseInt (s : list Z) (radix : Z) (r : jsnum) : bool :=
   match parseInt_math s radix with
-  | Some (_, v) => if v <? two63 then jsnum_eqb r (canon_of (S_parseInt s radix))
-                   else approx_eqb 64 r (S_parseInt s radix)
+  | Some (_, v) => jsnum_eqb r (canon_of (S_parseInt s radix))    (* exact for every magnitude since fix 47b90f1 *)
   | None => jsnum_eqb r (NFlt fnan)
   end.
 
